@@ -10,6 +10,7 @@ import (
 
 	"github.com/gofiber/fiber/v3/binder"
 	"github.com/gofiber/utils/v2"
+	"github.com/tinylib/msgp/msgp"
 	"github.com/valyala/bytebufferpool"
 )
 
@@ -305,7 +306,16 @@ func (r *Redirect) parseAndClearFlashMessages() {
 	clear(old)
 	r.c.flashMessages = old[:0]
 
-	rest, err := r.c.flashMessages.UnmarshalMsg(r.c.app.getBytes(cookieValue))
+	data := r.c.app.getBytes(cookieValue)
+
+	// Every message takes at least one byte. An array header announcing more
+	// messages than there are bytes left is malformed; rejecting it up front keeps
+	// the allocation made by UnmarshalMsg proportional to the size of the cookie.
+	if n, body, err := msgp.ReadArrayHeaderBytes(data); err != nil || uint64(n) > uint64(len(body)) {
+		return
+	}
+
+	rest, err := r.c.flashMessages.UnmarshalMsg(data)
 	if err != nil || len(rest) > 0 {
 		// not a well-formed encoding: drop the partially decoded messages
 		clear(r.c.flashMessages)
